@@ -22,7 +22,7 @@ type leaseCall struct {
 // enumerate all interleavings of per-actor operation counts is not possible up front (a call has one or two
 // store operations depending on its decision), so schedules are explored by a seeded walk; for two actors with one
 // call each all interleavings are enumerated by bounded DFS over choice sequences.
-func runLeaseSchedule(scripts map[int][]leaseCall, choose func(parked []int, step int) int) (acts []string, results []string, holdersOK bool, trace []string, finalHolder string, err error) {
+func runLeaseSchedule(scripts map[int][]leaseCall, choose func(parked []int, step int) int, batch func(step int) bool) (acts []string, results []string, holdersOK bool, trace []string, finalHolder string, err error) {
 	store := newSchedStore()
 	var actors []int
 	for a := range scripts {
@@ -112,7 +112,34 @@ func runLeaseSchedule(scripts map[int][]leaseCall, choose func(parked []int, ste
 			return nil, nil, false, nil, "", fmt.Errorf("unexpected store operation %s", ev.op)
 		}
 		trace = append(trace, fmt.Sprintf("n%d.%s", a, ev.op))
+		// two writes that are both waiting may be committed together and reach the state machine in one Update call
+		other := -1
+		if (ev.op == "set" || ev.op == "delete") && batch != nil && batch(step) {
+			for _, b := range parked {
+				if o := sch.waiting[b].op; b != a && (o == "set" || o == "delete") {
+					other = b
+					break
+				}
+			}
+		}
+		if other < 0 {
+			sch.release(a)
+			continue
+		}
+		store.beginBatch(2)
 		sch.release(a)
+		<-store.enq
+		pendingKind[other] = scripts[other][callIdx[other]]
+		acts = append(acts, fmt.Sprintf("AApply %d%%nat", other))
+		trace = append(trace, fmt.Sprintf("n%d.%s[same-batch]", other, sch.waiting[other].op))
+		sch.release(other)
+		<-store.enq
+		// both are applied; the callers continue in batch order
+		store.deliver(0)
+		sch.running-- // the second proposer is still inside the store
+		sch.settle(onDone)
+		sch.running++
+		store.deliver(1)
 	}
 	// who does the store say holds the lease
 	finalHolder = "none"
@@ -132,12 +159,12 @@ func runC15(args []string) error {
 	}
 	r := rf.rng()
 	sum := &Summary{Engine: "c15", Seed: rf.Seed,
-		Rule: "real table.Manager.LeaseTable/ReturnTable for 2-3 managers (node ids) over one metadata store with the real kv.LFSM compare-and-set semantics, every store operation released by a scheduler: ALL interleavings of two calls (lease/lease, lease/return, with long and already-expired durations) enumerated, plus seeded random schedules of 2-3 nodes x 1-4 calls; oracle: at no point two nodes with a granted, unreturned, unexpired lease; observed: every call's outcome in completion order and the final holder; distinct = distinct (scripts, schedule); non-trivial = both nodes' operations interleave inside a call"}
+		Rule: "real table.Manager.LeaseTable/ReturnTable for 2-3 managers (node ids) over one metadata store with the real kv.LFSM compare-and-set semantics, every store operation released by a scheduler (two waiting writes optionally committed together, i.e. applied by ONE LFSM.Update call): ALL interleavings of two calls (lease/lease, lease/return, with long and already-expired durations) enumerated, plus seeded random schedules of 2-3 nodes x 1-4 calls; oracle: at no point two nodes with a granted, unreturned, unexpired lease; observed: every call's outcome in completion order and the final holder; plus real replication workers (lease routine) of 2-3 nodes over a metadata shard with per-node replicas, competing and with the holder cut off: never two workers with the leased flag set; distinct = distinct (scripts, schedule); non-trivial = both nodes' operations interleave inside a call"}
 	cf := &CasesFile{Requires: []string{"Model.Bytes", "Model.Obs", "Model.Lease", "Run.C15Run"}, CaseType: "c15case", Check: "c15_check", Show: "c15_model"}
 	hk := sum.hist("schedules")
 	seen := map[string]bool{}
-	record := func(scripts map[int][]leaseCall, choose func([]int, int) int, kind string) error {
-		acts, results, ok, trace, final, err := runLeaseSchedule(scripts, choose)
+	record := func(scripts map[int][]leaseCall, choose func([]int, int) int, batch func(int) bool, kind string) error {
+		acts, results, ok, trace, final, err := runLeaseSchedule(scripts, choose, batch)
 		if err != nil {
 			return err
 		}
@@ -203,7 +230,10 @@ func runC15(args []string) error {
 					b := bits
 					s1 := append(append([]leaseCall{}, pre...), c1)
 					scripts := map[int][]leaseCall{1: s1, 2: {c2}}
-					if err := record(scripts, func(parked []int, step int) int { return (b >> uint(step%6)) & 1 }, "exhaustive-2-nodes"); err != nil {
+					if err := record(scripts, func(parked []int, step int) int { return (b >> uint(step%6)) & 1 }, nil, "exhaustive-2-nodes"); err != nil {
+						return err
+					}
+					if err := record(scripts, func(parked []int, step int) int { return (b >> uint(step%6)) & 1 }, func(int) bool { return true }, "exhaustive-2-nodes, waiting writes applied in one batch"); err != nil {
 						return err
 					}
 				}
@@ -220,9 +250,18 @@ func runC15(args []string) error {
 			}
 			scripts[a] = cs
 		}
-		if err := record(scripts, func(parked []int, step int) int { return r.Intn(len(parked)) }, "random"); err != nil {
+		var batch func(int) bool
+		kind := "random"
+		if i%2 == 1 {
+			batch = func(int) bool { return r.Intn(2) == 0 }
+			kind = "random, some waiting writes applied in one batch"
+		}
+		if err := record(scripts, func(parked []int, step int) int { return r.Intn(len(parked)) }, batch, kind); err != nil {
 			return err
 		}
+	}
+	if err := runC15Workers(sum); err != nil {
+		return err
 	}
 	names, err := cf.Write(rf.Out, "c15_cases", 200)
 	if err != nil {
